@@ -16,6 +16,12 @@ if wave > 1 and have:
     avoid = ("Changes ALREADY produced for this property by other people (do not repeat these ideas or trivial variations of them; "
              "pick other clauses of the property, other files / functions among the anchored code, or other triggering conditions):\n"
              + "\n".join("  - " + x for x in titles) + "\n\n")
+    if wave >= 3:
+        avoid += ("The easy ideas are taken. Look for regressions of these kinds: an interaction between two features that each work alone "
+                  "(resuming with a non-zero starting step, a logger or checkpointer attached, the multi-task wrappers, several gradient steps per "
+                  "environment step, vector environments with more than two sub-environments, optional arguments that callers rarely pass); a "
+                  "boundary of a counter or index that is only reached after a long or oddly shaped history; a numerically special but legal value; "
+                  "state that survives between calls; a change in one function that is only wrong for the way ANOTHER function of the library calls it.\n\n")
 k0 = len(have) + 1 if wave > 1 else 1
 print(t.format(WT=wt, N=n, OUT="/tmp/seed-out" + ("" if wave == 1 else str(wave)), PID=pid, TITLE=p["title"], STATEMENT=p["statement"],
                QUANT=p["quantifier"]["text"], FILES=", ".join(p["anchors"]["files"]), AVOID=avoid, K0=k0, K1=k0 + n - 1))
